@@ -29,9 +29,10 @@ type Case struct {
 var longNumRe = regexp.MustCompile(`[0-9]{16,}e`)
 
 type harness struct {
-	o   *vh.Opts
-	sum *vh.Summary
-	cw  *vh.CaseWriter
+	nSecond int
+	o       *vh.Opts
+	sum     *vh.Summary
+	cw      *vh.CaseWriter
 }
 
 func coqPath(p []int) string {
@@ -42,7 +43,9 @@ func coqPath(p []int) string {
 	return vh.CoqList(xs)
 }
 
-func coqExt() string {
+func coqExt() string { return coqExtOf(externals) }
+
+func coqExtOf(externals map[string]string) string {
 	var ks []string
 	for k := range externals {
 		ks = append(ks, k)
@@ -210,7 +213,7 @@ func (h *harness) runCaseM(c Case, ds Decls, wantReject string, nontrivial bool,
 	}
 
 	// ---- oracle 5: constants and plain fields directly from the documented rules ------------------
-	if !h.checkMembers(c, "const/field members", out.Recs, func(i int) []memberExp { return out.Recs[i].Direct }, false, "oracle:direct-member") {
+	if !h.checkMembers(c, "const/field/string-function members", out.Recs, func(i int) []memberExp { return out.Recs[i].Direct }, false, "oracle:direct-member") {
 		return
 	}
 	// ... and on FINAL_OUTPUT restricted to exactly those members, where nothing else can make a
@@ -223,7 +226,7 @@ func (h *harness) runCaseM(c Case, ds Decls, wantReject string, nontrivial bool,
 		rds, rfo := restrictTo(ds, keys)
 		rout := runSchema(schemaText(f, rds), c.Input, rfo)
 		if !rout.Rejected && rout.Panic == "" && len(rout.Recs) == len(out.Recs) {
-			if !h.checkMembers(c, "const/field members alone", rout.Recs, func(i int) []memberExp { return rout.Recs[i].Direct }, true, "oracle:direct-member-complete") {
+			if !h.checkMembers(c, "const/field/string-function members alone", rout.Recs, func(i int) []memberExp { return rout.Recs[i].Direct }, true, "oracle:direct-member-complete") {
 				return
 			}
 		}
@@ -255,7 +258,12 @@ func (h *harness) runCaseM(c Case, ds Decls, wantReject string, nontrivial bool,
 
 	// ---- oracle 7: bare-name xpaths select the unprefixed children only (own XML reading) ------------
 	if c.Format == "xml" && fo.XPath != nil && *fo.XPath == "/r/n" {
-		xd := xmlDirect(c.Input, fo)
+		// templates by substitution first: the independent reading then sees what they stand for
+		xfo := fo
+		if ifo, ok := Inline(ds, fo, 0); ok {
+			xfo = ifo
+		}
+		xd := xmlDirect(c.Input, xfo)
 		if len(xd) == len(out.Recs) && len(xd) > 0 && len(xd[0]) > 0 {
 			if !h.checkMembers(c, "bare-name xpath (children with that local name and no prefix)", out.Recs, func(i int) []memberExp { return xd[i] }, false, "oracle:xml-name-test") {
 				return
@@ -267,6 +275,9 @@ func (h *harness) runCaseM(c Case, ds Decls, wantReject string, nontrivial bool,
 			if len(keys) < len(fo.Object) {
 				rds, rfo := restrictTo(ds, keys)
 				rout := runSchema(schemaText(f, rds), c.Input, nil)
+				if irfo, ok := Inline(ds, rfo, 0); ok {
+					rfo = irfo
+				}
 				rxd := xmlDirect(c.Input, rfo)
 				if !rout.Rejected && rout.Panic == "" && len(rout.Recs) == len(rxd) {
 					if !h.checkMembers(c, "bare-name xpath members alone", rout.Recs, func(i int) []memberExp { return rxd[i] }, true, "oracle:xml-name-test-complete") {
@@ -320,8 +331,53 @@ func (h *harness) runCaseM(c Case, ds Decls, wantReject string, nontrivial bool,
 			}
 		}
 	}
+	// ---- oracle 8: ONE Schema, several transforms with different external properties ---------------
+	var second *runOut
+	if strings.Contains(c.Decls, `"external"`) && len(out.Recs) > 0 {
+		for _, inter := range []bool{false, true} {
+			both := runSchemaN(schema, []string{c.Input, c.Input}, []map[string]string{externals, externalsB}, fo, inter)
+			fresh := runSchemaN(schema, []string{c.Input}, []map[string]string{externalsB}, fo, false)[0]
+			how := map[bool]string{false: "one after the other", true: "interleaved"}[inter]
+			reads := func(o *runOut) []string {
+				var x []string
+				for _, ro := range o.Recs {
+					x = append(x, ro.Read)
+				}
+				return x
+			}
+			if strings.Join(reads(both[0]), "\n") != strings.Join(outs, "\n") {
+				h.sum.Fail("two transforms of one Schema ("+how+"): the first differs from the same transform run alone", c,
+					map[string]interface{}{"alone": outs, "first_of_two": reads(both[0])})
+				return
+			}
+			if strings.Join(reads(both[1]), "\n") != strings.Join(reads(fresh), "\n") {
+				h.sum.Fail("two transforms of one Schema ("+how+") with different external properties: the second differs from a fresh Schema run with its own properties", c,
+					map[string]interface{}{"externals_first": externals, "externals_second": externalsB, "second_of_two": reads(both[1]), "fresh_schema": reads(fresh)})
+				return
+			}
+			if !h.checkMembers(c, "second transform of one Schema ("+how+"), its own external properties", both[1].Recs,
+				func(i int) []memberExp { return both[1].Recs[i].Direct }, false, "oracle:second-transform-direct") {
+				return
+			}
+			h.sum.Hist("oracle:two-transforms-" + map[bool]string{false: "sequential", true: "interleaved"}[inter])
+			second = both[1]
+		}
+	}
 	if !model {
 		return
+	}
+	h.nSecond++
+	if second != nil && h.nSecond%3 == 0 {
+		var recTerms2 []string
+		for _, ro := range second.Recs {
+			recTerms2 = append(recTerms2, fmt.Sprintf("mkRec %s %s %s", ro.Tree, coqPath(ro.Cursor), ro.ReadObs))
+		}
+		clsT := make([]string, len(classes))
+		for i, k := range classes {
+			clsT[i] = vh.CoqN(k)
+		}
+		h.cw.Add(fmt.Sprintf("mkCase %s (Some %s) %s %s %s", ds.Coq(), term, vh.CoqList(clsT), coqExtOf(externalsB), vh.CoqList(recTerms2)),
+			map[string]interface{}{"case": c, "second_transform_externals": externalsB})
 	}
 	desc := map[string]interface{}{"case": c, "outcomes": outs}
 	h.sum.Sample(desc)
